@@ -75,6 +75,34 @@ def run(ctx):
         vf.report(ctx, clause, {"mode": "stress"}, "%d burst(s): a notification that was already delivered reached the callback again (or one with a foreign token did); e.g. %s" % (len(xs), json.dumps(xs[0])),
                   {"record": xs[0], "cmd": "bin/check C08 --tier %s" % ctx.tier})
 
+    # notifications whose representations need block-wise transfer (specs/bw/ObsBlock.tla, shared with C04): the reassembled
+    # notification still carries its Observe value, so the observer sees them in Observe order - never a body without one
+    # after a fresher one (the driver and the judge are C04's: harness/drv/c04/obsbw.go, RecC04.C04_ObsWhole)
+    ro = vf.run_tlc(ctx, "bw", "MC_ObsBlock", "MC_ObsBlock.cfg", workers=8, timeout=1800, cont=False)
+    vf.tlc_must_finish(ro, "MC_ObsBlock")
+    if ro.inv:
+        raise vf.Machinery("design-level invariant failed in ObsBlock (spec bug, not a code verdict): %s" % ro.inv)
+    plans = json.load(open(os.path.join(ro.dir, "plans.json")))
+    ojobs = [{"mode": "obsbw", "p": {"l": 0, "l2": l2, "cs": 0, "ss": 0, "cmms": 2048, "smms": 2048}, "plan": pl} for l2 in (50, 33) for pl in plans]
+    ojp = os.path.join(ctx.work, "obsjobs.ndjson")
+    vf.write_ndjson(ojp, ojobs)
+    oout = os.path.join(ctx.work, "obsrecs.ndjson")
+    vf.drv(ctx, ["c04", ojp, oout], timeout=1800)
+    orecs = vf.read_ndjson(oout)
+    obad, g3, d3 = vf.judge_records(ctx, "bw", "RecC04", "RecC04_obs.cfg", orecs, shards=2, timeout=900)
+    ctx.add("states", d3 + ro.distinct)
+    ctx.add("transitions", g3 + ro.generated)
+    ctx.add("traces_validated_against_impl", len(orecs))
+    ctx.cov["blockwise_notification_plans"] = len(orecs)
+    ctx.cov["blockwise_notifications_delivered"] = sum(len(t["notes"]) for t in orecs)
+    for clause, idxs in sorted(obad.items()):
+        xs = [orecs[i] for i in idxs]
+        t0 = min(xs, key=lambda t: len(t["plan"]))
+        vf.report(ctx, "C08_BlockwiseNotesInOrder", {"mode": "observe-blockwise"},
+                  "%d observation(s) with block-wise notifications: a body reached the observer out of Observe order / without its Observe value / not whole; e.g. plan %s -> [Observe, length, pieces] %s" % (
+                      len(xs), t0["plan"], json.dumps([[n["seq"], n["len"], n["pieces"][:3]] for n in t0["notes"]])[:400]),
+                  {"trace": t0, "cmd": "bin/check C08 --tier %s" % ctx.tier})
+
     def mutate(t, rng):
         ev = [dict(e) for e in t["ev"]]
         for n, e in enumerate(ev):
